@@ -91,13 +91,18 @@ func runScenario(sc Scenario) M {
 			if need() {
 				n := geti(op, "n")
 				rq0 := op["req"].(map[string]any)
+				c.bursts.Add(1)
 				go func(c *L2Client) {
+					defer c.bursts.Done()
 					for j := 0; j < n; j++ {
 						rq := M{}
 						for k, v := range rq0 {
 							rq[k] = v
 						}
 						rq["rid"] = 5000 + j
+						if gets(rq, "k") == "Custom" {
+							rq["dig"] = j // number the bodies so that order and multiplicity can be checked
+						}
 						if c.SendReq(rq) != nil {
 							return
 						}
@@ -137,6 +142,25 @@ func runScenario(sc Scenario) M {
 		case "stall":
 			if need() {
 				c.noRd.Store(true)
+			}
+		case "waitburst":
+			if need() {
+				done := make(chan struct{})
+				go func() { c.bursts.Wait(); close(done) }()
+				ms := geti(op, "ms")
+				if ms == 0 {
+					ms = 20000
+				}
+				select {
+				case <-done:
+					r["ok"] = true
+				case <-time.After(time.Duration(ms) * time.Millisecond):
+					r["ok"] = false
+				}
+			}
+		case "unstall":
+			if need() {
+				c.noRd.Store(false)
 			}
 		case "sleep":
 			time.Sleep(time.Duration(geti(op, "ms")) * time.Millisecond)
